@@ -134,14 +134,42 @@ fn prog_case() -> impl Strategy<Value = ProgCase> {
     .prop_map(ProgCase)
 }
 
+/// Programs around the sizes at which a size constant or an index width could matter (Program::MAX_SIZE = 10000, 2^16):
+/// `pad` filler ops, then a few effect ops.
+#[derive(Clone, Debug, Hash, Serialize, Deserialize)]
+pub struct LongProg {
+    pub pad: usize,
+    pub push_filler: bool,
+    pub tail: Vec<u8>,
+}
+
+fn oracle_long(l: &LongProg, obs: &mut Obs) -> Result<(), Violation> {
+    let mut prog: Vec<MOp> = (0..l.pad).map(|i| if l.push_filler && i % 3 == 0 { PUSH(1) } else { POP }).collect();
+    prog.extend(l.tail.iter().map(|i| EFFECT_OPS[*i as usize % 6]));
+    oracle(&ProgCase(prog), obs)?;
+    obs.label("long");
+    obs.nontrivial();
+    Ok(())
+}
+
+fn long_prog() -> impl Strategy<Value = LongProg> {
+    (prop_oneof![4 => 9_990usize..10_010, 2 => 65_530usize..65_540, 1 => 0usize..70_000], any::<bool>(), proptest::collection::vec(0u8..6, 0..7))
+        .prop_map(|(pad, push_filler, tail)| LongProg { pad, push_filler, tail })
+}
+
 pub fn property() -> Property {
     Property {
         id: "C15",
-        rule: "generated well-formed programs over the full op set in which Push immediates carry each of the six effect opcodes and the Push opcode at every byte position, effect ops directly after a Push / at the start / at the end, shuffled prefixes of all six effect ops, and long programs (up to 160 ops, ~700 bytes) in which effect bytes are sparse so that Push immediates straddle every block boundary; for each program all 64 effect subsets are queried (exhaustive per program). Oracle: the set folded over RefAsm's decoding of the bytes; bytes_contains_any(bytes,S) == (expected ∩ S != ∅) for all S, analyze(ops) == expected exactly. Non-trivial = an immediate contains an effect/Push opcode byte or an effect op follows a Push.",
+        rule: "generated well-formed programs over the full op set in which Push immediates carry each of the six effect opcodes and the Push opcode at every byte position, effect ops directly after a Push / at the start / at the end, shuffled prefixes of all six effect ops, and long programs (up to 160 ops, ~700 bytes) in which effect bytes are sparse so that Push immediates straddle every block boundary; plus programs of 9990..10010, ~2^16 and random up to 70000 filler ops followed by 0..6 effect ops; for each program all 64 effect subsets are queried (exhaustive per program). Oracle: the set folded over RefAsm's decoding of the bytes; bytes_contains_any(bytes,S) == (expected ∩ S != ∅) for all S, analyze(ops) == expected exactly. Non-trivial = an immediate contains an effect/Push opcode byte or an effect op follows a Push.",
         assumptions: vec!["effect flags are numbered as documented on `Effects` (KeyRange=1<<0 … PostKeyRangeExtern=1<<5)"],
         health: vec![("eff.all_subsets", "immediate-has-effect-byte", 300), ("eff.all_subsets", ">=4 effects", 50), ("eff.all_subsets", "long-with-effect-free-64-byte-block", 100)],
         subs: vec![prop_sub("eff.all_subsets", 900_000, 7_200_000, |_| prog_case(), |c: &ProgCase, obs| {
             let r = oracle(c, obs);
+            obs.extra_evals += 64;
+            r
+        }),
+        prop_sub("eff.long_programs", 320, 3_200, |_| long_prog(), |c: &LongProg, obs| {
+            let r = oracle_long(c, obs);
             obs.extra_evals += 64;
             r
         })],
